@@ -73,6 +73,7 @@ pub struct Swarm {
     pub poison_permille: u64,
     pub short_permille: u64,
     pub special_off_permille: u64,
+    pub nan_custom_permille: u64,
     pub weights: [u64; 7],
     pub small: bool,
 }
@@ -213,6 +214,10 @@ pub fn swarm(seed: u64, focus: &str, flags: &GenFlags) -> Swarm {
             })
         } else {
             0
+        },
+        nan_custom_permille: match focus {
+            "C15" | "C17" => 60,
+            _ => 8,
         },
         weights,
         small: flags.small,
@@ -504,9 +509,34 @@ fn place_point(r: &mut Rng, digits: &str, k: i64) -> String {
 
 /// A decimal string exactly on / just above / just below the midpoint of two adjacent floats.
 fn gen_tie(r: &mut Rng, ty: FloatTy, sw: &Swarm) -> (Vec<u8>, u64) {
+    let variant = r.below(5);
+    // for the truncated variants: the decimal exponent the text should end up with (one of the run's hot
+    // magnitudes, either sign), and a float whose expansion can be cut there
+    let target: Option<i64> = if variant >= 3 {
+        let h = *r.pick(&sw.hot_exps) as i64;
+        Some(if r.chance(1, 2) {
+            h
+        } else {
+            -h
+        })
+    } else {
+        None
+    };
     let mut x;
     loop {
-        x = ty.abs(hot_finite(r, ty, sw));
+        x = match target {
+            Some(t) if !sw.small => {
+                let lim = match ty {
+                    FloatTy::F64 => (-320, 305),
+                    FloatTy::F32 => (-44, 37),
+                };
+                let e10 = (t + 19 + r.below(30) as i64).clamp(lim.0, lim.1);
+                let e2 = (e10 as f64 * 3.321928) as i64 + r.range(-2, 2);
+                let field = (e2 + bias(ty)).clamp(0, max_exp_field(ty) as i64 - 1) as u64;
+                float_from_parts(ty, false, field, r.next_u64())
+            },
+            _ => ty.abs(hot_finite(r, ty, sw)),
+        };
         if sw.small {
             // keep the exact expansion short: binary exponent near zero
             let field = (bias(ty) + r.range(-20, 20)) as u64;
@@ -519,8 +549,51 @@ fn gen_tie(r: &mut Rng, ty: FloatTy, sw: &Swarm) -> (Vec<u8>, u64) {
     let (m, e2) = ty.decompose(x);
     let (d, k) = dyadic_to_decimal(2 * m as u128 + 1, e2 - 1);
     let up = x + 1; // next float up (MAX + 1 is the bit pattern of infinity)
-    let (digits, k, expect) = match r.below(3) {
-        0 => (
+    let (digits, k, expect) = match variant {
+        3 | 4 if d.len() > 24 => {
+            // a truncation of the exact midpoint expansion to `keep` digits: strictly below the midpoint
+            // (the dropped tail is non-zero), or — with the last kept digit bumped — strictly above it.
+            // The dropped digits go into the exponent, which is steered to one of the run's hot magnitudes
+            // when that is reachable, so that different calls share exponents.
+            let n = d.len();
+            let mut keep = 20 + r.below((n - 21) as u64) as usize;
+            if let Some(t) = target {
+                // exponent after truncation = k + (n - keep)
+                let want_keep = n as i64 - (t - k as i64);
+                if want_keep >= 20 && want_keep < n as i64 && r.chance(3, 4) {
+                    keep = want_keep as usize;
+                }
+            }
+            let tail_nonzero = d[keep..].bytes().any(|c| c != b'0');
+            let head = &d[..keep];
+            let kk = k as i64 + (n - keep) as i64;
+            if tail_nonzero && r.chance(1, 2) {
+                (head.to_string(), kk, x)
+            } else {
+                // head + 1 unit in its last place  >  midpoint
+                let bumped = {
+                    let mut b: Vec<u8> = head.bytes().collect();
+                    let mut i = b.len();
+                    let mut carry = true;
+                    while carry && i > 0 {
+                        i -= 1;
+                        if b[i] == b'9' {
+                            b[i] = b'0';
+                        } else {
+                            b[i] += 1;
+                            carry = false;
+                        }
+                    }
+                    let mut st = String::from_utf8(b).unwrap();
+                    if carry {
+                        st.insert(0, '1');
+                    }
+                    st
+                };
+                (bumped, kk, up)
+            }
+        },
+        0 | 3 => (
             d,
             k as i64,
             if m % 2 == 0 {
@@ -529,7 +602,7 @@ fn gen_tie(r: &mut Rng, ty: FloatTy, sw: &Swarm) -> (Vec<u8>, u64) {
                 up
             },
         ),
-        1 => {
+        1 | 4 => {
             let j = 1 + r.below(3) as usize;
             (format!("{}{}1", d, "0".repeat(j - 1)), k as i64 - j as i64, up)
         },
@@ -782,6 +855,12 @@ pub fn gen_op(r: &mut Rng, sw: &Swarm) -> Op {
         return Op::WSpecialOff {
             ty: fty(r),
             which: r.below(2) as u8,
+        };
+    }
+    if r.below(1000) < sw.nan_custom_permille {
+        return Op::WNanCustom {
+            ty: fty(r),
+            idx: r.below(NAN_POOL.len() as u64) as u8,
         };
     }
     let short = r.below(1000) < sw.short_permille;
